@@ -268,6 +268,12 @@ fn run_mixed(case: (i32, bool, &[&str]), out: &mut WorkerOut) {
 
 const REREG: &[(i32, bool)] = &[(105, true), (105, false), (125, true), (125, false), (121, true), (111, false)];
 
+/// the handler object shared by every registration of `xop` in the re-registration histories
+pub fn xop_handler() -> std::sync::Arc<dyn Fn(expression_engine::Value, expression_engine::Value) -> expression_engine::Result<expression_engine::Value> + Send + Sync> {
+    static H: std::sync::OnceLock<std::sync::Arc<dyn Fn(expression_engine::Value, expression_engine::Value) -> expression_engine::Result<expression_engine::Value> + Send + Sync>> = std::sync::OnceLock::new();
+    H.get_or_init(|| std::sync::Arc::new(|a, _| Ok(a))).clone()
+}
+
 pub fn rereg_histories() -> Vec<Vec<(i32, bool)>> {
     let mut v = Vec::new();
     for a in REREG {
@@ -290,14 +296,15 @@ fn run_rereg(h: &[(i32, bool)], xthread: bool, out: &mut WorkerOut) {
     use crate::gen::{relabel, trees_by_size, Kind};
     use crate::model::lex::InfixInfo;
     use expression_engine::{InfixOpAssociativity, InfixOpType};
-    use std::sync::Arc;
     let kinds: Vec<Kind> = ["xop", "*", "+", "in"].iter().map(|o| Kind::Infix(o.to_string())).collect();
     let trees = trees_by_size(&kinds, 3);
     let rot = crate::gen::leaf_rotation();
     let mut ops = OpSet::builtin();
     for (step, (prec, left)) in h.iter().enumerate() {
         let (p, l) = (*prec, *left);
-        let reg = move || expression_engine::register_infix_op("xop", p, InfixOpType::CALC, if l { InfixOpAssociativity::LEFT } else { InfixOpAssociativity::RIGHT }, Arc::new(|a, _| Ok(a)));
+        // one handler object for every registration of the history (a clone of the same Arc)
+        let hnd = xop_handler();
+        let reg = move || expression_engine::register_infix_op("xop", p, InfixOpType::CALC, if l { InfixOpAssociativity::LEFT } else { InfixOpAssociativity::RIGHT }, hnd);
         if xthread && step > 0 {
             std::thread::spawn(reg).join().expect("registration thread");
         } else {
